@@ -281,6 +281,7 @@ def shard(desc):
                 st = 'one' if L == 1 else 'const'
                 marks.append((c.op('O', 0), st, table(typ, st, x=x, y=y, n=L), 'x=%r n=%d' % (x, L)))
                 res.count('const_states_len_%d' % L if L in (1, 2, 10, 100, 10000) else 'const_states_other')
+            c.meta['marks'] = [(opi, st, common.f2h(x), None if y is None else common.f2h(y), int(d.split('n=')[1])) for opi, st, _, d in marks]
             cases.append(c)
             plan.append((c, typ, marks))
         # non-constant samples of size 2, 3, 4
@@ -384,3 +385,30 @@ def run(tier, seed):
         need['cases_%s' % t] = 20
     return common.finish(PROP, tier, seed, total, RULE, t0, ASSUME, min_events=need,
                          extra={'builds': [v for v, _ in variants], 'values': len(vals), 'stream_lengths': lens})
+
+
+def rejudge(case, recs, res, variant, v):
+    typ = case.type
+    by_op = {r.op: r for r in recs if r.kind == 'o'}
+    marks = case.meta.get('marks')
+    if marks is None:
+        # empty / distinct / zero-weight cases: rebuild the expectation from the program
+        import replay
+        exp = replay.interpret(case)
+        for opi, items in exp.items():
+            if opi not in by_op:
+                continue
+            n = len(items)
+            if n == 0:
+                st = 'empty'
+            elif typ in ('WeightedMean', 'WeightedMeanWithError') and all(w == 0.0 for _, w in items):
+                st = 'zero_weight'
+            else:
+                st = 'distinct'
+            judge(typ, st, by_op[opi].kv, table(typ, st, n=n), res, case, variant, 'replay n=%d' % n)
+        return
+    for opi, st, xh, yh, n in marks:
+        if opi in by_op:
+            x = common.h2f(xh)
+            y = None if yh is None else common.h2f(yh)
+            judge(typ, st, by_op[opi].kv, table(typ, st, x=x, y=y, n=n), res, case, variant, 'replay x=%r n=%d' % (x, n))
